@@ -126,6 +126,7 @@ class Equiv:
         self.run = None          # set by bind(): enables inlining of private helpers
         self.cls = None
         self.vocab_key = ""
+        self.transparent = set()
 
     def bind(self, r, cls=None):
         self.run, self.cls = r, cls
@@ -193,8 +194,16 @@ class Equiv:
 
     def compare(self, code, spec, assume=None, alias=None, int_subjects=None):
         if self.run is not None:
-            keep = {x[1] for x in walk(strip_all(spec)) if x[0] == "glob" and x[1] in self.run.P.functions} | IDENTITY_HELPERS
+            # inline (a) helpers that did not exist on the tree the rule was validated on, (b) wrappers the rule declares transparent (both sides)
+            base_funcs = set(BASELINE_VOCAB.get("__functions__", []))
+            P = self.run.P
+            spec_names = {x[1] for x in walk(strip_all(spec)) if x[0] == "glob" and x[1] in P.functions}
+            keep = ({q for q in P.functions if q in base_funcs} | spec_names | IDENTITY_HELPERS) - set(self.transparent)
+            if not base_funcs:
+                keep = (spec_names | IDENTITY_HELPERS) - set(self.transparent)
             code = inline_helpers(self.run, code, keep, cls=self.cls)
+            if self.transparent:
+                spec = inline_helpers(self.run, spec, set(P.functions) - set(self.transparent), cls=self.cls)
         self.code_raw = code
         self.code_prepped, self.spec_prepped = self.prep(code), self.prep(spec)
         return compare_trees(self.code_prepped, self.spec_prepped, self.leaf_eq, alias=alias, assume=assume, int_subjects=int_subjects)
@@ -462,6 +471,10 @@ def inline_helpers(r, term, keep=(), cls=None, depth=3):
 
 
 # --------------------------------------------------------------------------- small semantic rewrites
+_NEVER_NONE = {"pandas.DataFrame", "pandas.Series", "numpy.array", "numpy.asarray", "numpy.zeros", "numpy.empty", "numpy.ones", "numpy.arange", "builtins.list", "builtins.dict",
+               "builtins.set", "builtins.tuple", "builtins.sorted", "builtins.zip", "builtins.range", "numpy.unique", "numpy.histogram"}
+
+
 def _is_assert_raise(t):
     t = strip(t)
     return head(t) == "raise" and head(strip(t[1])) == "call" and strip(strip(t[1])[1]) == ("glob", "builtins.AssertionError")
@@ -545,6 +558,13 @@ def small_rewrites(t):
         return e if t[1] == "==" else ("un", "not", e)
     if h == "cmp" and t[1] in ("==", "is") and is_const(strip(t[3]), True) and head(strip(t[2])) in ("cmp", "and", "or", "un"):
         return t[2]
+    if h == "cmp" and t[1] in ("is", "isnot", "==", "!=") and is_const(strip(t[3]), None):
+        x = strip(t[2])
+        # freshly constructed objects are never None
+        if head(x) == "call" and head(strip(x[1])) == "glob" and strip(x[1])[1] in _NEVER_NONE:
+            return FALSE if t[1] in ("is", "==") else TRUE
+        if head(x) in ("list", "tuple", "dict", "set", "comp", "fstr") or (is_const(x) and x[2] is not None):
+            return FALSE if t[1] in ("is", "==") else TRUE
     return t
 
 
@@ -552,6 +572,16 @@ def canon_folds(t):
     """Loops that only accumulate are comprehensions; search loops are any() / all()."""
     h = head(t)
     if h == "fold" and t[1] == "for" and not t[6]:
+        # a loop over a constant range (typically after inlining a helper called with a literal count) is unrolled
+        rng = strip(t[3])
+        if head(rng) == "call" and strip(rng[1]) == ("glob", "builtins.range") and not rng[3] and 1 <= len(rng[2]) <= 3 \
+                and all(is_const(strip(a)) and isinstance(strip(a)[2], int) and not isinstance(strip(a)[2], bool) for a in rng[2]):
+            vals = list(range(*[strip(a)[2] for a in rng[2]]))
+            if len(vals) <= 16:
+                cur = t[4]
+                for v in vals:
+                    cur = subst(t[5], {("acc", t[2], 0): cur, ("elem", t[2], t[3]): const(v)})
+                return cur
         d, it, init, step = t[2], t[3], strip(t[4]), strip(t[5])
         acc = ("acc", d, 0)
         elem = ("elem", d, it)
